@@ -66,11 +66,54 @@ def gen_desc(seed, tier):
         "faults": scenario.gen_faults(r, "process", 4, p_none=0.5, kinds=["objective_slow", "stalled_worker", "ac_order"]),
         "resolve_mode": r.choice(["serial", "thread"]),
     }
+    r84 = random.Random(H(seed, "c19-real84"))
+    if r84.random() < 0.15:
+        # any exported optimizer, tuned over its own parameters on a seeded task: every trial of every grid point must
+        # reproduce what a freshly constructed optimizer with exactly that point's parameters does on that task
+        g84 = _real84_grid(r84)
+        if g84 is not None:
+            d.update(g84)
+            d["real_optimizer"] = True
+            d.pop("prior_execute", None)
+            return d
     # the tuner may have been used before: an earlier campaign on another task (other direction / shifted costs)
     if not real and r.random() < 0.3:
         d["prior_execute"] = {"minmax": r.choice(["min", "max"]), "shift": r.choice([-50.0, 100.0, 0.0]),
                               "n_trials": r.choice([1, 2]), "grid": subgrid() if r.random() < 0.5 else None}
     return d
+
+
+def _real84_grid(r):
+    names = scenario.optimizer_names()
+    opt = names[r.randrange(len(names))]
+    base = scenario.base_configs()[opt]["params"]
+    defaults = scenario.config_defaults(opt)
+    own = sorted(k for k in base if k not in scenario.COMMON) + sorted(defaults)
+    if not own:
+        return None
+    keys = r.sample(own, min(len(own), r.choice([1, 1, 2])))
+    grid = {"population_size": [base["population_size"]], "max_cycles": [r.choice([2, 3, 5])]}
+    extreme = {}
+    for k, c in scenario.extreme_candidates(opt, engine_g.make_config):
+        extreme.setdefault(k, []).append(c)
+    for k in keys:
+        cur = base[k] if k in base else defaults[k]
+        vals = [cur]
+        cands = [scenario.perturb_value(r, cur) for _ in range(3)] + r.sample(extreme.get(k, []), min(2, len(extreme.get(k, []))))
+        for c in cands:
+            if c in vals or len(vals) >= 3:
+                continue
+            try:
+                engine_g.make_config(opt, dict(base, **{k: c}))
+            except Exception:
+                continue
+            vals.append(c)
+        grid[k] = vals
+    fam = r.choice(["cont_multi", "cont_multi", "cont_mixed", "discrete", "permutation", "multi_objective"])
+    t = scenario.gen_task(r, fam, dim_max=5)
+    t["seed"] = r.choice([0, 1, 42, 12345])
+    return {"real84": opt, "grid": grid, "task": t, "minmax": t["minmax"], "mode": "serial", "n_workers": None,
+            "n_trials": r.choice([1, 2, 2]), "faults": []}
 
 
 def enumerate_grid(grid):
@@ -134,10 +177,16 @@ def execute(desc):
 
     sim.obs["on_obj_call"] = on_obj_call
     if desc["real_optimizer"]:
-        algo = pv.BiogeographyBasedOptimization()
-        tdesc = {"cls": "SimTask", "family": "cont_multi", "minmax": desc["minmax"],
-                 "vars": [{"type": "cont_multi", "name": "x", "lb": [-5.0] * 3, "ub": [5.0] * 3}],
-                 "objective": {"family": "sphere", "shift": [0.5] * 3, "const": 1.0}}
+        if desc.get("real84"):
+            algo = install.OPTIMIZERS[desc["real84"]]()
+            tdesc = desc["task"]
+            cfg_cls_ = getattr(pv, scenario.base_configs()[desc["real84"]]["config_class"])
+        else:
+            algo = pv.BiogeographyBasedOptimization()
+            tdesc = {"cls": "SimTask", "family": "cont_multi", "minmax": desc["minmax"],
+                     "vars": [{"type": "cont_multi", "name": "x", "lb": [-5.0] * 3, "ub": [5.0] * 3}],
+                     "objective": {"family": "sphere", "shift": [0.5] * 3, "const": 1.0}}
+            cfg_cls_ = pv.BiogeographyBasedOptimizationConfig
         # observe real runs through the cycle taps
         runs = sim.obs.setdefault("party_runs", [])
 
@@ -151,7 +200,7 @@ def execute(desc):
                 runs[opt._run_id]["values"].append(mm * min(a.cost for a in opt._population))
 
         sim.obs["on_step"] = on_step
-        cfg_of = lambda p: pv.BiogeographyBasedOptimizationConfig(**p).model_dump()
+        cfg_of = lambda p: cfg_cls_(**copy.deepcopy(p)).model_dump()
     else:
         algo = cl["TunableOptimizer"]()
         tdesc = dict(IDENTITY_TASK, minmax=desc["minmax"])
@@ -180,6 +229,21 @@ def execute(desc):
                     sim.count("prior_execute_failed")
                 tuner._param_grid = copy.deepcopy(desc["grid"])
                 sim.obs["party_runs"] = []
+            refs = None
+            if desc.get("real84"):
+                # reference, in the still pristine process: a freshly constructed optimizer per grid point
+                refs = []
+                for p_ in pts:
+                    try:
+                        rr = install.OPTIMIZERS[desc["real84"]](cfg_cls_(**copy.deepcopy(p_))).optimize(
+                            tasks.build_task(tdesc), mode="serial")
+                        refs.append(("ok", float(rr.best_solution.cost)))
+                    except kernel.SimAbort:
+                        raise
+                    except BaseException as e_:
+                        refs.append(("exc", type(e_).__name__))
+                del sim.obs.setdefault("party_runs", [])[:]
+                sim.count("reference_runs_fresh_instance", len(refs))
             try:
                 tuner.execute(task=task, n_trials=desc["n_trials"], n_jobs=desc["n_jobs"], mode=desc["mode"],
                               n_workers=desc["n_workers"])
@@ -208,6 +272,10 @@ def execute(desc):
                   "points": len(pts), "runs": len(runs_exec), "deadlock": sim.deadlock})
     if sim.deadlock or sim.step_limit_hit:
         add("no_termination", f"execute() deadlocked / exceeded the step budget (deadlock={sim.deadlock})")
+        return out, stats
+    if desc.get("real84") and refs is not None and any(k == "exc" for k, _ in refs):
+        # the algorithm itself fails on this task / point (C06's business): nothing to say about the tuner
+        stats["uninformative"] = 1
         return out, stats
     if exc is not None:
         add(f"execute_raised:{type(exc).__name__}", f"HyperTuner.execute raised {type(exc).__name__}: {str(exc)[:200]}")
@@ -263,6 +331,16 @@ def execute(desc):
                 add("table_values", f"trial costs of {k} in _df_fit {sorted(tv)[:4]} differ from the best costs the "
                                     f"runs reported {rv[:4]}")
                 break
+    if desc.get("real84") and refs is not None and rows_ok:
+        for i, p in enumerate(pts):
+            want_c = refs[i][1]
+            for c in tcols:
+                got_c = float(df.iloc[i][c])
+                if not (got_c == want_c or (got_c != got_c and want_c != want_c)):
+                    add("point_run_differs_from_fresh_optimizer",
+                        f"{desc['real84']}: {c} of grid point {p} has best cost {got_c!r}, but a freshly constructed "
+                        f"optimizer with exactly these parameters reaches {want_c!r} on the same seeded task")
+                    break
     # -- selection
     bp, bs = tuner.best_parameters, tuner.best_score
     if bp not in pts:
@@ -305,7 +383,8 @@ def run_job(job):
             "by_products": st.get("by_products", {}),
             "key": json.dumps([desc["grid"], desc["n_trials"], desc["n_jobs"], desc["mode"], desc["minmax"],
                                desc["cpu_count"], sorted(f["kind"] for f in desc["faults"])], sort_keys=True, default=str),
-            "minmax": desc["minmax"], "real": desc["real_optimizer"], "wall": time.time() - t0}
+            "minmax": desc["minmax"], "real": desc["real_optimizer"], "wall": time.time() - t0,
+            "real84": bool(desc.get("real84")), "uninformative": st.get("uninformative", 0)}
 
 
 def replay(pid, desc):
@@ -363,6 +442,8 @@ def evidence(pid, tier, seed, jobs, results, good, wall):
         "cases_min": sum(1 for j, r in good if r["minmax"] == "min"),
         "cases_max": sum(1 for j, r in good if r["minmax"] == "max"),
         "cases_with_real_optimizer": sum(1 for j, r in good if r["real"]),
+        "cases_any_exported_optimizer_vs_fresh_instance": sum(1 for j, r in good if r.get("real84")),
+        "cases_uninformative_algorithm_fails": sum(r.get("uninformative", 0) for j, r in good),
         "simulated_time": {"events_logical_ticks": sum(r["nevents"] for j, r in good)},
         "faults_fired": fired, "probes": probes, "by_products": bp,
         "interleavings": {"distinct_schedule_digests": len({r["sched_digest"] for j, r in good if r["switches"]})},
